@@ -26,6 +26,12 @@ CLAIMS = {
          "partial: U >= heap payload of the decoded value is checked on the implementation (oracle with real size_of) rather than proved."),
  "C14": ("§4 C14", "Theorems: locality of every decoder program; every strict prefix of an encoding fails; a concatenation of encodings decodes value by value in order; decode_all succeeds exactly when decode succeeds with nothing left. Oracle: every cut point (all for encodings <= 40 bytes), decode_all and decode_all_with_depth_limit on every input.",
          "Bit sequences are outside strict_prefix_fails (it rests on the round-trip theorem)."),
+ "C13": ("§4 C13", "Theorems by induction on the type descriptor: if mel t = Some m (the formulas of max_encoded_len.rs and of the derive, with saturating arithmetic; compact / encoded_as fields contribute the bound of the type they are encoded as, skipped fields and variants nothing, enums 1 + max) and m did not saturate, no well-formed value encodes to more than m bytes; ConstEncodedLen types encode to exactly m bytes; encoded_fixed_size() = Some s means every value has s bytes; the Compact bound table is sufficient for every width. Tie: on every run the constants the implementation reports (max_encoded_len(), encoded_fixed_size(), CEL markers) for ~125 registry types are compared with the model's formulas inside Coq, and the oracle tries 300 values per type with integers forced to their maxima. The check found defect F2 on the original tree (repaired by a fix: commit).",
+         "The tie is by observation of reported constants for the registry types (including derived types with compact / encoded_as / skip / generics), not for every possible user type."),
+ "C16": ("§4 C16", "One theorem per impl family: holders, sequences of any container kind and element size, String/bytes, Option/Result/array/tuple lifting, one-tuples, and 'what A produces decodes as B to the corresponding value' (from the round-trip theorem). Tie: every `impl .. EncodeLike<..> for ..` header found in /repo/src is matched against the committed inventory (an unknown header = a declared pair the property is not shown for); ~75 families x 10 element types are used through the trait bound on the implementation (bytes equal, decodes as target), and the bytes are compared with the model's encoding of the target value.",
+         "References, Cow and Ref are the type itself in the descriptor (transparent by construction); their equality with the value's encoding is checked on the implementation."),
+ "C18": ("§4 C18", "Theorems: for every well-formed type and every byte string skip succeeds exactly when decode does and leaves the same remaining input (arrays with a fixed element size skip element by element while the array decoder reads in bulk - proved equivalent); reading only the count of an encoded collection (also through a tuple led by one) returns its true length. Oracle: skip vs decode on every mutated input; DecodeLength::len on collections of lengths in every compact class.",
+         ""),
  "C15": ("§4 C15", "Theorems over a branch-by-branch model of append_or_new_impl with abstract items (n items whose encodings concatenate to p, so any item type, alias form, zero-sized items): appending to the encoding of c items yields the canonical count c+n, the old items, the new items, across every prefix-width change (in-place rewrite and reallocation branches proved equal); append to empty; overflow of the combined count is an error, never a wrong count; input without a valid count is rejected; never panics; every history of appends equals the encoding of the concatenation (induction over histories). Correspondence: seeded histories on u8/u32/String/Vec<u8>/()/derived items over Vec and VecDeque, counts within 3 of every prefix boundary and around 2^32 with zero-sized items, garbage prefixes. The check found the truncation defect F3 on the original tree (repaired by a fix: commit).",
          "ExactSizeIterator::len is taken as the item count."),
  "C19": ("§4 C19", "Theorem for every decoder program and input, success or failure: count = min(u64::MAX, bytes delivered by the wrapped input); equals the encoded length after decoding an encoding; the step function saturates. Oracle: count() vs the wrapped input's position after every decode.",
